@@ -196,6 +196,36 @@ type vfModel struct {
 	ev      vfEval
 	maxRows int
 	memo    map[*vfNode]*vfRel
+	// probe only (attribution of a mismatch to a recorded finding, never the oracle): evaluate a where directly over a
+	// by-less min/max summarize that returns the record the way the engine's transform does - the conjuncts that do not
+	// mention the aggregate are applied to the source before the summarize
+	whereBeforeWholeRow bool
+	usedAlt             int
+}
+
+// vfConjuncts flattens the top-level and / parentheses of a where expression.
+func vfConjuncts(e *vfExpr, into []*vfExpr) []*vfExpr {
+	if e.op == "paren" && len(e.args) == 1 {
+		return vfConjuncts(e.args[0], into)
+	}
+	if e.op == "and" {
+		for _, a := range e.args {
+			into = vfConjuncts(a, into)
+		}
+		return into
+	}
+	return append(into, e)
+}
+
+// wholeRowBelow returns the by-less min/max summarize node that n is (through views), or nil
+func vfWholeRowNode(n *vfNode) *vfNode {
+	for n != nil && n.op == "view" {
+		n = n.def
+	}
+	if n != nil && n.op == "summarize" && n.wholeRow {
+		return n
+	}
+	return nil
 }
 
 func vfNewModel(d *vfDB, raw bool) *vfModel {
@@ -279,6 +309,46 @@ func (m *vfModel) eval1(n *vfNode) *vfRel {
 	case "view":
 		return m.eval(n.def)
 	case "where":
+		if su := vfWholeRowNode(n.src); su != nil && m.whereBeforeWholeRow {
+			srcRel := m.eval(su.src)
+			var before []*vfExpr
+			for _, c := range vfConjuncts(n.expr, nil) {
+				cols := map[string]bool{}
+				c.columns(cols)
+				ok := true
+				for col := range cols {
+					ok = ok && slices.Contains(srcRel.cols, col)
+				}
+				if ok {
+					before = append(before, c)
+				}
+			}
+			if len(before) > 0 {
+				m.usedAlt++
+				flt := &vfRel{cols: srcRel.cols}
+			rows:
+				for _, row := range srcRel.rows {
+					for _, c := range before {
+						if !m.ev.bool(c, row) {
+							continue rows
+						}
+					}
+					flt.rows = append(flt.rows, row)
+				}
+				su2 := *su
+				tmp := &vfNode{op: "table"}
+				su2.src = tmp
+				m.memo[tmp] = flt
+				s := m.summarize(&su2)
+				out := &vfRel{cols: s.cols}
+				for _, row := range s.rows {
+					if m.ev.bool(n.expr, row) {
+						out.rows = append(out.rows, row)
+					}
+				}
+				return out
+			}
+		}
 		s := m.eval(n.src)
 		out := &vfRel{cols: s.cols}
 		for _, row := range s.rows {
